@@ -226,6 +226,9 @@ func c05Variants(h *hctx) []timedCase {
 						}
 						return []int{2}
 					}
+					if v == nil {
+						return []int{0, -1} // a value that was never put
+					}
 					return []int{0, v.(int)}
 				})
 				// the event races with the Get going to sleep
@@ -240,6 +243,10 @@ func c05Variants(h *hctx) []timedCase {
 					if !g.returned() {
 						r.instant([]int{15, 0}, []int{9, 1})
 						h.count("get_never_woke", 1)
+						if name == "cancel" || name == "closeb" {
+							// the model has no caller context: state the lost wake-up directly
+							h.line("MONITOR C05 Get still parked %v after its context was cancelled / its buffer closed (%s): lost wake-up", inject+400*time.Millisecond, id)
+						}
 					}
 				}
 				select {
@@ -259,10 +266,12 @@ func c05Variants(h *hctx) []timedCase {
 				}
 				r.record(id, []int{0, 0, 0})
 				cancel()
-				for c := range r.cons {
-					_ = r.cons[c].Rollback()
-				}
-				go r.b.Close()
+				go func() { // never wait for the library here: a lost wake-up would otherwise hang the harness itself
+					for c := range r.cons {
+						_ = r.cons[c].Rollback()
+					}
+					r.b.Close()
+				}()
 			}}
 	}
 	return []timedCase{
